@@ -316,6 +316,8 @@ def run_c09(tier, seed, work, ncases):
         rep.skipped.append("crash injection skipped: strace inject not usable"); return rep.to_dict()
     drv = Driver(); contents = Contents(); traces = 0
     try:
+        for ti in range(2 if tier == "quick" else 6):
+            sparse_crash(rep, contents, ti, seed, work, Rng(rng.next()), big=(tier != "quick" and ti == 0))
         for ti in range(ntrees):
             pristine = os.path.join(work, f"p{ti}")
             rngc = Rng(rng.next())
@@ -345,6 +347,79 @@ def run_c09(tier, seed, work, ncases):
         drv.close()
     d = rep.to_dict(); d["traces_validated_against_impl"] = traces
     return d
+
+def write_sparse(path, size, chunks):
+    """a file of `size` bytes whose data extents `chunks` = [(offset, bytes)] (block aligned) are written; the rest is a hole"""
+    with open(path, "wb") as f:
+        f.truncate(size)
+        for off, data in chunks:
+            f.seek(off); f.write(data)
+
+def sparse_crash(rep, contents, ti, seed, work, rng, big=False):
+    """O-only targeted family (seeded change C09c): an UPDATE of an existing destination from a SPARSE source goes through
+    the sparse copier of sync_file_with_delta (hook H1 lowers the 10 MiB gate; `big` uses a real > 10 MiB pair). The run is
+    killed at each write / ftruncate to the destination file; then the same command runs uninterrupted. A torn file must
+    never be accepted: with --size-only the size alone decides, in the default mode the source is given the current time
+    as mtime so that only the size protects a file torn a moment later."""
+    case_dir = os.path.join(work, f"sp{ti}")
+    unit = 256 * 1024 if big else 4096
+    nblk = 48 if big else 16
+    size = unit * nblk
+    layout = rng.pick([[(0, 1), (6, 1), (nblk - 1, 1)], [(1, 2), (9, 1)], [(0, 1), (4, 1), (8, 1), (nblk - 3, 2)]])     # (block, count): last extent at EOF or a trailing hole
+    extents = [(b * unit, c * unit) for b, c in layout]
+    mode = rng.pick(["size-only", "default-now"])
+    flags = ["-j", "1"] + (["--size-only"] if mode == "size-only" else [])
+    env = {} if big else {"SY_VERIF_DELTA_THRESHOLD": "4096", "SY_VERIF_BLOCK_SIZE": "1024"}
+    pristine = os.path.join(case_dir, "pristine"); src_root, dst_root = os.path.join(pristine, "src"), os.path.join(pristine, "dst")
+    os.makedirs(src_root); os.makedirs(dst_root)
+    chunks = [(off, bytes((b % 255) + 1 for b in rng.bytes(ln))) for off, ln in extents]
+    write_sparse(os.path.join(src_root, "img.bin"), size, chunks)
+    with open(os.path.join(dst_root, "img.bin"), "wb") as f: f.write(rng.bytes(size + unit))          # the old version: longer, dense
+    os.utime(os.path.join(dst_root, "img.bin"), ns=(BASE_T * 10**9, BASE_T * 10**9))
+    with open(os.path.join(src_root, "other.txt"), "wb") as f: f.write(b"other")
+    st = os.stat(os.path.join(src_root, "img.bin"))
+    desc0 = {"tree": ti, "seed": seed, "flags": flags, "env": env, "scenario": f"sparse source {size} B extents {extents} over a dense destination, {mode}", "allocated": st.st_blocks * 512}
+    if st.st_blocks * 512 >= size - 4096:
+        rep.skipped.append("sparse crash family skipped: the work directory's file system does not create holes"); shutil.rmtree(case_dir, ignore_errors=True); return
+    run_dir = os.path.join(case_dir, "run")
+    def fresh():
+        shutil.rmtree(run_dir, ignore_errors=True); shutil.copytree(pristine, run_dir, symlinks=True)
+        write_sparse(os.path.join(run_dir, "src", "img.bin"), size, chunks)            # (copytree fills the holes)
+        os.utime(os.path.join(run_dir, "src", "img.bin"), ns=((BASE_T + 500) * 10**9, (BASE_T + 500) * 10**9))
+        if mode == "default-now":
+            now = __import__("time").time_ns(); os.utime(os.path.join(run_dir, "src", "img.bin"), ns=(now, now))
+        return os.path.join(run_dir, "src"), os.path.join(run_dir, "dst")
+    # count the writes to the destination file of an uninterrupted run
+    s_, d_ = fresh(); log = os.path.join(case_dir, "count.log")
+    rc, out, err = run_sy([s_, d_, "--json"] + flags, run_dir, env_extra=env,
+                          prefix=["strace", "-f", "-qq", "-o", log, "-e", "trace=write,pwrite64,ftruncate,copy_file_range", "-P", os.path.join(d_, "img.bin")])
+    n = {}
+    for line in open(log, errors="replace"):
+        m = re.match(r"^\d+\s+(\w+)\(", line)
+        if m: n[m.group(1)] = n.get(m.group(1), 0) + 1
+    want = open(os.path.join(s_, "img.bin"), "rb").read()
+    if rc != 0 or open(os.path.join(d_, "img.bin"), "rb").read() != want:
+        rep.oracle_fail("C01/content-differs", f"uninterrupted sparse update exits {rc} / wrong content", desc0); shutil.rmtree(case_dir, ignore_errors=True); return
+    rep.tag("c09.sparse-crash." + mode); rep.tag("c09.sparse-route-writes=%d" % sum(n.values()))
+    for call, cnt in sorted(n.items()):
+        for k in range(1, cnt + 1):
+            s_, d_ = fresh()
+            rc, out, err = run_sy([s_, d_, "--json"] + flags, run_dir, env_extra=env,
+                                  prefix=["strace", "-f", "-qq", "-o", "/dev/null", "-e", "trace=" + call, "-e", f"inject={call}:signal=KILL:when={k}", "-P", os.path.join(d_, "img.bin")])
+            desc = dict(desc0, kill=[call, k], rc=rc)
+            killed = rc is not None and rc < 0
+            torn = open(os.path.join(d_, "img.bin"), "rb").read() if os.path.exists(os.path.join(d_, "img.bin")) else None
+            rep.case(("sparse-crash", mode, tuple(extents), call, k, big), killed)
+            rep.tag("kill." + call)
+            if open(os.path.join(s_, "img.bin"), "rb").read() != want: rep.oracle_fail("C09/source-changed-by-killed-run", "the source changed", desc)
+            rc2, out2, err2 = run_sy([s_, d_, "--json"] + flags, run_dir, env_extra=env)
+            if rc2 != 0: rep.oracle_fail("C09/rerun-after-kill-fails", f"re-run after the kill exits {rc2}: {err2[-200:]}", desc); continue
+            fin = open(os.path.join(d_, "img.bin"), "rb").read() if os.path.exists(os.path.join(d_, "img.bin")) else None
+            if fin != want:
+                rep.oracle_fail("C09/interrupted-state-accepted", f"sparse update killed at {call}#{k}: the torn file ({None if torn is None else len(torn)} B) was accepted as up to date by the re-run (exit 0, content differs from the source)", desc)
+            left = [x for x in os.listdir(d_) if x.endswith(".sy.tmp")]
+            if left: rep.oracle_fail("C09/working-file-left-after-rerun", f"working files remain after kill + re-run: {left}", desc)
+    shutil.rmtree(case_dir, ignore_errors=True)
 
 def content_fp(snap):
     """kind, content, size (and link text): what "the destination equals the source" is about; mtimes are compared by the
